@@ -7,7 +7,7 @@ from pyrevm import EVM, BlockEnv, Env
 from vlib import c11_gen as G
 from vlib import coqrun
 from vlib.configs import Config
-from vlib.evm import DEPLOYER, Chain
+from vlib.evm import DEPLOYER, SENDER2, Chain
 
 LEVEL = "proof"
 META = {
@@ -25,6 +25,13 @@ META = {
                   "within a computed fuel is not proved (acyclicity of the call graph and the loop-bound property are).",
     "technique": "Coq proof over a hand-written calculus + generated-program differential against the real front end + EVM execution",
 }
+
+# rules that the real compiler enforces only inside the code generators (build_IR / venom lowering of the builtin)
+CODEGEN_CHECKED = {"view_send", "view_selfdestruct", "view_raw_log", "view_create_minimal", "view_create_copy"}
+CODEGEN_KEY = "c11:modifying-builtin-in-constant-function-not-rejected-when-function-is-not-code-generated"
+CODEGEN_MSG = ("rule-breaking program ({rule}: state-modifying builtin inside a @view/@pure function) is accepted: the check lives in "
+               "the code generators and is skipped for functions that are not code-generated (unused imported-module function; "
+               "any unreachable internal function under the venom pipeline)")
 
 COQ_IMPORTS = "From Verif Require Import C11.Effects.\n"
 
@@ -44,14 +51,22 @@ def coq_check(progs, name):
     return [bool(x) for x in flat]
 
 
-def front_end(src, cfg):
+def bundle(lib):
+    from pathlib import PurePath
+    from vyper.compiler.input_bundle import JSONInputBundle
+    if lib is None:
+        return None
+    return JSONInputBundle({PurePath("lib1.vy"): {"content": lib}}, search_paths=[PurePath(".")])
+
+
+def front_end(src, cfg, lib=None):
     """accept / reject by the real compiler front end"""
     from vyper.compiler import compile_code
     from vyper.exceptions import VyperException
     with warnings.catch_warnings():
         warnings.simplefilter("ignore")
         try:
-            compile_code(src, output_formats=["abi"], settings=cfg.settings())
+            compile_code(src, output_formats=["abi"], settings=cfg.settings(), input_bundle=bundle(lib))
             return True, None
         except VyperException as e:
             return False, type(e).__name__
@@ -59,12 +74,12 @@ def front_end(src, cfg):
             return False, "CRASH:" + type(e).__name__
 
 
-def compile_full(src, cfg):
+def compile_full(src, cfg, lib=None):
     from vyper.compiler import compile_code
     with warnings.catch_warnings():
         warnings.simplefilter("ignore")
         try:
-            return compile_code(src, output_formats=["bytecode"], settings=cfg.settings())["bytecode"]
+            return compile_code(src, output_formats=["bytecode"], settings=cfg.settings(), input_bundle=bundle(lib))["bytecode"]
         except Exception as e:
             return e
 
@@ -76,6 +91,7 @@ class World:
         self.ch = Chain(cfg.evm)
         self.ch.evm = EVM(gas_limit=10**9, spec_id=cfg.evm, env=Env(block=BlockEnv(number=number, timestamp=timestamp)))
         self.ch.evm.set_balance(DEPLOYER, 10**30)
+        self.ch.evm.set_balance(SENDER2, 10**30)
         self.ext = None
 
     def deploy_ext(self, code):
@@ -88,22 +104,24 @@ def selector(sig):
     return method_id_int(sig).to_bytes(4, "big")
 
 
-def call_fn(w, addr, name, a, static, value=0):
+def call_fn(w, addr, name, a, static, value=0, sender=DEPLOYER):
     data = selector(f"{name}(uint256)") + a.to_bytes(32, "big")
-    r = w.ch.call(addr, data, static=static, value=value)
+    r = w.ch.call(addr, data, static=static, value=value, sender=sender)
     return (r.ok, r.out)
 
 
 def storage_snapshot(w, addr):
-    return tuple(w.ch.storage(addr, s) for s in range(6))
+    return tuple(w.ch.storage(addr, s) for s in range(14))
 
 
-def dynamic_check(ctx, prog, src, cfg, ext_code, rule, where):
+def dynamic_check(ctx, prog, src, cfg, ext_code, rule, where, lib=None):
     """Execute an accepted program: view/pure externals under CALL vs STATICCALL (same result, no storage change);
     pure externals under perturbed storage / balance / block context.  Returns (#calls, #failing)."""
-    code = compile_full(src, cfg)
+    code = compile_full(src, cfg, lib)
     if isinstance(code, Exception):
-        return 0, 0, f"codegen:{type(code).__name__}"
+        from vyper.exceptions import VyperException
+        kind = "codegen" if isinstance(code, VyperException) else "codegen-internal"
+        return 0, 0, f"{kind}:{type(code).__name__}"
     worlds = []
     for (num, ts, sx, sy, bal) in ((1, 1000, 11, 22, 0), (77, 5000, 5, 9, 12345)):
         w = World(cfg, num, ts)
@@ -118,7 +136,7 @@ def dynamic_check(ctx, prog, src, cfg, ext_code, rule, where):
         worlds.append((w, addr))
     ncalls = 0
     nfail = 0
-    for i, f in enumerate(prog):
+    for i, f in enumerate(prog["funs"]):
         if f["vis"] != "External" or G.RANK[f["mut"]] > 1:
             continue
         for a in (0, 1, 3):
@@ -145,6 +163,27 @@ def dynamic_check(ctx, prog, src, cfg, ext_code, rule, where):
                     ctx.violation("failing-input", f"@{f['mut'].lower()} function f{i} is not side-effect free", bad,
                                   key=f"c11:dyn:{rule}:{f['mut']}")
                     break
+            if f["mut"] == "Pure":
+                # same contract, same argument, perturbed storage / balance / block context between two calls
+                w, addr = worlds[0]
+                sid = w.ch.snapshot()
+                r_a = call_fn(w, addr, f"f{i}", a, static=False)
+                w.ch.revert(sid)
+                sid = w.ch.snapshot()
+                w.ch.call(addr, selector("setup(uint256,uint256)") + (901).to_bytes(32, "big") + (77).to_bytes(32, "big"))
+                w.ch.evm.set_balance(addr, 10**18 + 3)
+                w.ch.evm.set_block_env(BlockEnv(number=4242, timestamp=99999))
+                r_b = call_fn(w, addr, f"f{i}", a, static=False, sender=SENDER2)
+                w.ch.evm.set_block_env(BlockEnv(number=1, timestamp=1000))
+                w.ch.revert(sid)
+                ncalls += 2
+                if r_a != r_b and r_a[0] and r_b[0]:
+                    nfail += 1
+                    ctx.violation("failing-input", f"@pure function f{i} changes its result when storage / balance / block / sender change",
+                                  {"source": src, "function": f"f{i}", "arg": a, "config": cfg.name, "before": str(r_a), "after": str(r_b),
+                                   "perturbation": "setup(901,77); balance += 1e18+3; block.number 1->4242, timestamp 1000->99999; other sender",
+                                   "rule": rule, "where": where}, key=f"c11:pure:{rule}")
+                    continue
             if f["mut"] == "Pure" and len(res) == 2 and res[0] != res[1] and res[0][0] and res[1][0]:
                 nfail += 1
                 ctx.violation("failing-input", f"@pure function f{i} depends on storage / balance / block context",
@@ -152,6 +191,66 @@ def dynamic_check(ctx, prog, src, cfg, ext_code, rule, where):
                                "worlds": "block (1,1000) storage (11,22) balance 0  vs  block (77,5000) storage (5,9) balance 12345"},
                               key=f"c11:pure:{rule}")
     return ncalls, nfail, None
+
+
+def configs_all(ctx):
+    from vlib.configs import configs
+    return configs("quick")
+
+
+BOUND_SRC = """
+@external
+@view
+def f{K}(a: uint256) -> uint256:
+    n: uint256 = 0
+    for i: uint256 in range(a, bound={K}):
+        n += 1
+    return n
+
+@external
+@view
+def g{K}(a: uint256, b: uint256) -> uint256:
+    n: uint256 = 0
+    for i: uint256 in range(a, b, bound={K}):
+        n += 1
+    return n
+"""
+
+
+def bound_probes(ctx, cfgs):
+    """loop_bound_respected at run time: range(x, bound=K) runs x <= K iterations, and reverts when x > K."""
+    Ks = [1, 3, 5, 256]
+    src = "".join(BOUND_SRC.format(K=K) for K in Ks)
+    n = fails = 0
+    for cfg in cfgs:
+        code = compile_full(src, cfg)
+        if isinstance(code, Exception):
+            ctx.violation("correspondence-broken", "range(x, bound=K) probe contract does not compile", {"config": cfg.name, "error": str(code)[:300]})
+            continue
+        ch = Chain(cfg.evm)
+        addr = ch.deploy(bytes.fromhex(code[2:]))
+        for K in Ks:
+            for a in (0, 1, K - 1, K, K + 1, K + 2, 2 * K + 1, 2**128, 2**256 - 1):
+                r = ch.call(addr, selector(f"f{K}(uint256)") + a.to_bytes(32, "big"))
+                n += 1
+                got = int.from_bytes(r.out, "big") if r.ok else "revert"
+                want = a if a <= K else "revert"
+                if got != want:
+                    fails += 1
+                    ctx.violation("failing-input", f"range(x, bound={K}) with x={a}: expected {want}, observed {got}",
+                                  {"source": src, "call": f"f{K}({a})", "config": cfg.name, "expected": str(want), "observed": str(got)},
+                                  key=f"c11:bound:{K}:{'over' if a > K else 'under'}")
+            for (a, b) in ((0, K), (2, K + 2), (1, K + 2), (5, 5 + K + 1), (7, 7), (2**256 - 2, 2**256 - 1)):
+                r = ch.call(addr, selector(f"g{K}(uint256,uint256)") + a.to_bytes(32, "big") + b.to_bytes(32, "big"))
+                n += 1
+                got = int.from_bytes(r.out, "big") if r.ok else "revert"
+                want = (b - a) if b - a <= K else "revert"
+                if got != want:
+                    fails += 1
+                    ctx.violation("failing-input", f"range({a}, {b}, bound={K}): expected {want}, observed {got}",
+                                  {"source": src, "call": f"g{K}({a},{b})", "config": cfg.name, "expected": str(want), "observed": str(got)},
+                                  key=f"c11:bound2:{K}")
+    return n, fails
 
 
 def run(ctx):
@@ -165,7 +264,7 @@ def run(ctx):
     else:
         nvalid, per_prog = 36, 9
 
-    b = ctx.coq_build(["C11/Effects.v", "C11/EffectsSound.v", "C11/EffectsPure.v", "C11/EffectsReject.v", "C11/EffectsTerm.v", "C11/PropsEffects.v"])
+    b = ctx.coq_build(["C11/Effects.v", "C11/EffectsSound.v", "C11/EffectsPure.v", "C11/EffectsReject.v", "C11/EffectsTerm.v", "C11/EffectsIter.v", "C11/PropsEffects.v"])
     model_ok = b["ok"] or not b.get("file", "").endswith("/Effects.v")
 
     ext_code = compile_full(G.EXT_SRC, front)
@@ -192,20 +291,57 @@ def run(ctx):
     nfail = 0
     mism = []
     for (rule, where, prog), vm in zip(cases, verdict_model):
-        src = G.v_prog(prog, tgt_lit)
-        acc, why = front_end(src, front)
+        src, lib = G.v_prog(prog, tgt_lit)
+        acc, why = front_end(src, front, lib)
         by_rule.setdefault(rule, [0, 0])
         by_rule[rule][0 if acc else 1] += 1
         if why and why.startswith("CRASH"):
-            mism.append({"rule": rule, "where": where, "what": "front end crashed", "error": why, "source": src})
+            if rule != "valid":
+                # a rule-breaking program must be rejected with a user-facing diagnostic; an internal compiler panic is not one
+                nfail += 1
+                ctx.violation("failing-input", f"rule-breaking program ({rule}) is not rejected with a user-facing diagnostic: "
+                              f"the compiler panics with {why[6:]}",
+                              {"source": full_src, "rule": rule, "where": where, "exception": why[6:], "stage": "compile_code(output_formats=['abi'])",
+                               "expected": "a VyperException subclass (user-facing compile error)"}, key=f"c11:panic:{rule}:{why[6:]}")
+            else:
+                mism.append({"rule": rule, "where": where, "what": "front end crashed on a valid-set program", "error": why, "source": full_src})
+        full_src = src if lib is None else src + "\n# ---- lib1.vy ----\n" + lib
         if acc:
+            late = []
             for cfg in dyn_cfgs:
-                n, f, note = dynamic_check(ctx, prog, src, cfg, ext_code, rule, where)
+                n, f, note = dynamic_check(ctx, prog, src, cfg, ext_code, rule, where, lib)
+                if note and note.startswith("codegen:"):
+                    late.append((cfg.name, note.split(":")[1]))
                 ncalls += n
                 nfail += f
+                if note and note.startswith("codegen-internal") and rule != "valid":
+                    nfail += 1
+                    ctx.violation("failing-input", f"rule-breaking program ({rule}) passes the front end and then makes code generation "
+                                  f"panic with {note.split(':')[1]} instead of being rejected with a user-facing diagnostic",
+                                  {"source": full_src, "rule": rule, "where": where, "exception": note.split(":")[1], "config": cfg.name,
+                                   "stage": "compile_code(output_formats=['bytecode'])"}, key=f"c11:panic:{rule}:{note.split(':')[1]}")
+                    break
                 # StaticAssertionException = the optimiser proved the program always reverts (e.g. count > bound): allowed
                 if note and note.startswith("codegen") and rule == "valid" and "StaticAssertion" not in note:
-                    mism.append({"rule": rule, "where": where, "what": "accepted by the front end but code generation failed", "note": note, "config": cfg.name, "source": src})
+                    mism.append({"rule": rule, "where": where, "what": "accepted by the front end but code generation failed", "note": note, "config": cfg.name, "source": full_src})
+            # user-facing rejection raised by the code generators (e.g. "Cannot send ether from a constant function"):
+            # still a compile-time rejection; both pipelines must agree on it
+            late = [x for x in late if x[1] != "StaticAssertionException"]
+            if late:
+                stats["rejected_in_codegen"] = stats.get("rejected_in_codegen", 0) + 1
+                if len(late) != len(dyn_cfgs):
+                    if rule in CODEGEN_CHECKED:
+                        nfail += 1
+                        ctx.violation("failing-input", CODEGEN_MSG.format(rule=rule),
+                                      {"source": src, "lib1.vy": lib, "rule": rule, "where": where, "rejected_by": late,
+                                       "accepted_by": [c.name for c in dyn_cfgs if c.name not in [x[0] for x in late]],
+                                       "how": "vyper.compiler.compile_code(source, output_formats=['bytecode'], settings=<config>, input_bundle={lib1.vy})",
+                                       "expected": "StateAccessViolation under every configuration"}, key=CODEGEN_KEY)
+                    else:
+                        mism.append({"rule": rule, "where": where, "what": "pipelines disagree on acceptance", "late": late, "source": full_src})
+                acc = False
+                by_rule[rule][0] -= 1
+                by_rule[rule][1] += 1
         if vm is None:
             continue
         if acc and vm:
@@ -214,11 +350,18 @@ def run(ctx):
             stats["agree_reject"] += 1
         elif acc and not vm:
             stats["compiler_laxer"] += 1
-            mism.append({"rule": rule, "where": where, "what": "compiler accepts a program that `check` rejects (dynamic test found no misbehaviour)", "source": src})
+            if rule in CODEGEN_CHECKED:
+                nfail += 1
+                ctx.violation("failing-input", CODEGEN_MSG.format(rule=rule),
+                              {"source": src, "lib1.vy": lib, "rule": rule, "where": where, "accepted_by": [c.name for c in dyn_cfgs],
+                               "how": "vyper.compiler.compile_code(source, output_formats=['bytecode'], settings=<config>, input_bundle={lib1.vy})",
+                               "expected": "StateAccessViolation (\"Cannot ... from a constant function\")"}, key=CODEGEN_KEY)
+                continue
+            mism.append({"rule": rule, "where": where, "what": "compiler accepts a program that `check` rejects (dynamic test found no misbehaviour)", "source": full_src})
         else:
             stats["compiler_stricter"] += 1
             if rule == "valid":
-                mism.append({"rule": rule, "where": where, "what": "compiler rejects a program of the valid set that `check` accepts", "error": why, "source": src})
+                mism.append({"rule": rule, "where": where, "what": "compiler rejects a program of the valid set that `check` accepts", "error": why, "source": full_src})
     # every seeded violation must be rejected by the real compiler (independent of the model)
     for rule, (a, r) in by_rule.items():
         if rule != "valid" and a:
@@ -229,8 +372,12 @@ def run(ctx):
     ctx.corr["dynamic_calls"] = ncalls
     ctx.corr["evaluations"] = len(cases) + ncalls
     ctx.corr["distinct_nontrivial"] = len({G.c_prog(c[2]) for c in cases})
+    nb, fb = bound_probes(ctx, dyn_cfgs if ctx.tier == "quick" else configs_all(ctx))
+    ctx.corr["bound_probe_calls"] = nb
+    ctx.corr["evaluations"] += nb
+    nfail += fb
     ctx.corr["rule"] = "evaluations = programs classified by front end and by check + EVM calls on accepted programs; distinct = distinct program terms"
-    ctx.samples.append({"rule": cases[1][0], "where": cases[1][1], "source_tail": G.v_prog(cases[1][2], tgt_lit)[-600:]})
+    ctx.samples.append({"rule": cases[1][0], "where": cases[1][1], "source_tail": G.v_prog(cases[1][2], tgt_lit)[0][-600:]})
     if not nfail:
         if not b["ok"]:
             ctx.violation("theorem-broken", f"{b.get('failed_lemma')} in {b['file']}",
